@@ -1,5 +1,8 @@
 import PallasVerif.Stream
 import PallasVerif.Model.Rules
+import PallasVerif.Streams.Value
+import PallasVerif.Streams.ExUnits
+import PallasVerif.Streams.Witness
 /-! stream `rules` (C38), see harness/src/streams/rules.rs.
     `rl <era> <scenario..> | V <rule>=<ok|Error>* | F <key>=<value>*` → `<ok | err Error> | <rule>=<0|1>*`:
     the verdict of the model's composition (`validate`: first failing rule in source order; the error text is the one
@@ -54,7 +57,79 @@ def out? (s : String) : Option OutView :=
 
 def outs (s : String) : List OutView := if s = "-" then [] else (s.splitOn ",").filterMap out?
 
-def mkView (f : List (String × String)) (vs : List (String × String)) : View :=
+def strs (s : String) : List String := if s = "-" || s = "" then [] else s.splitOn ","
+def ostrs (s : String) : List (Option String) := (strs s).map (fun x => if x = "_" then none else some x)
+def digits (s : String) : List Nat := if s = "-" then [] else s.toList.map (fun c => c.toNat - 48)
+def hexBytes (s : String) : List UInt8 := (Tok.unhex s).getD []
+def optHex (s : String) : Option (List UInt8) := if s = "n" then none else some (hexBytes s)
+def ptr? (s : String) : Option Ptr :=
+  match s.splitOn "." with
+  | [t, i] => some ⟨natOf t, natOf i⟩
+  | _ => none
+def costModel? (s : String) : Option (Nat × List Int) :=
+  match s.splitOn ":" with
+  | [k, m] => some (natOf k, (m.splitOn ".").filterMap String.toInt?)
+  | _ => none
+
+def mkScripts (f : List (String × String)) : ScriptView :=
+  { mintPresent := b1 (get f "mintp"), mintPolicies := strs (get f "mint"), native := strs (get f "nat"), v1 := strs (get f "v1"),
+    v2 := strs (get f "v2"), v3 := strs (get f "v3"), plutusFieldPresent := b1 (get f "pf"), refScripts := strs (get f "refs"),
+    inputScripts := strs (get f "insc"), sortedInputScripts := ostrs (get f "sins"), sortedPolicies := strs (get f "spol"),
+    sortedWithdrawalScripts := ostrs (get f "swd"), withdrawalsOk := b1 (get f "wdok"), redeemers := (strs (get f "reds")).filterMap ptr? }
+
+def mkDatums (f : List (String × String)) : DatumView :=
+  { witnessDatums := strs (get f "wdat"), inputsResolved := b1 (get f "inres"), inputDatumHashes := ostrs (get f "idh"),
+    allowedDatumHashes := strs (get f "adh") }
+
+def mkLangs (f : List (String × String)) : LangView :=
+  { used := digits (get f "used"), withCostModel := digits (get f "cm"), anyByronAddress := b1 (get f "byron"),
+    anyDatumOrScriptRef := b1 (get f "dsr"), anyReferenceInput := b1 (get f "anyref"), protMagic := natOf (get f "magic") }
+
+def mkSdh (f : List (String × String)) : SdhView :=
+  { provided := optHex (get f "sdhp"), witnessSetBytes := hexBytes (get f "ws"),
+    costModels := (if get f "cms" = "-" then [] else ((get f "cms").splitOn ";").filterMap costModel?),
+    redeemerEnc := optHex (get f "renc"),
+    datumEncs := (if get f "dencs" = "n" then none else some ((strs (get f "dencs")).map hexBytes)),
+    redeemerCount := natOf (get f "rcount"), costModelBytes := hexBytes (get f "cmb") }
+
+def mkValue : List String → ValueView
+  | "VAL" :: sh :: md :: "I" :: n :: rest =>
+    match (Tok.nat? n).bind (fun k => Streams.Value.takeValues k rest) with
+    | some (ins, "O" :: m :: r2) =>
+      match (Tok.nat? m).bind (fun k => Streams.Value.takeValues k r2) with
+      | some (outs, ["M", mint]) =>
+        let mt : Option Value.MA := if mint = "-" then none else Streams.Value.groups? ((mint.splitOn ";").filter (· ≠ ""))
+        { modelled := b1 md, shelleyEra := b1 sh, spent := ins, produced := outs, mint := mt }
+      | _ => { modelled := false, shelleyEra := false, spent := [], produced := [], mint := none }
+    | _ => { modelled := false, shelleyEra := false, spent := [], produced := [], mint := none }
+  | _ => { modelled := false, shelleyEra := false, spent := [], produced := [], mint := none }
+
+def mkEx : List String → ExView
+  | "EX" :: c1 :: c2 :: c3 :: enc :: mm :: ms :: us =>
+    let bs := (Streams.ExUnits.units? us).getD []
+    let reds : Option ExUnits.Redeemers :=
+      if enc = "list" then some (.list (Streams.ExUnits.keyed bs)) else if enc = "map" then some (.map (Streams.ExUnits.keyed bs)) else none
+    { wits := ⟨(Streams.ExUnits.cnt? c1).getD none, (Streams.ExUnits.cnt? c2).getD none, (Streams.ExUnits.cnt? c3).getD none, reds⟩,
+      maxMem := natOf mm, maxSteps := natOf ms }
+  | _ => { wits := ⟨none, none, none, none⟩, maxMem := 0, maxSteps := 0 }
+
+def mkWit : List String → WitView
+  | "WIT" :: rest =>
+    match Streams.Witness.parseWits rest with
+    | some (ws, r1) =>
+      match Streams.Witness.parseViews r1 with
+      | some (ins, r2) =>
+        match Streams.Witness.parseReq r2 with
+        | some (req, ["N", nb]) =>
+          let tbl := ws.getD []
+          { hash := Streams.Witness.hashOf tbl, verify := Streams.Witness.verifyOf tbl, requiredSigners := req,
+            witnesses := ws.map (·.map (·.w)), inputViews := ins, nativeOk := b1 nb, txId := [] }
+        | _ => { hash := fun _ => "?", verify := fun _ _ _ => false, requiredSigners := none, witnesses := none, inputViews := [], nativeOk := true, txId := [] }
+      | none => { hash := fun _ => "?", verify := fun _ _ _ => false, requiredSigners := none, witnesses := none, inputViews := [], nativeOk := true, txId := [] }
+    | none => { hash := fun _ => "?", verify := fun _ _ _ => false, requiredSigners := none, witnesses := none, inputViews := [], nativeOk := true, txId := [] }
+  | _ => { hash := fun _ => "?", verify := fun _ _ _ => false, requiredSigners := none, witnesses := none, inputViews := [], nativeOk := true, txId := [] }
+
+def mkView (f : List (String × String)) (vs : List (String × String)) (val ex wit : List String) : View :=
   { nInputs := natOf (get f "nin"), nOutputs := natOf (get f "nout"), inputsIn := bitsOf (get f "ins"),
     collateral := colls (get f "col"), refInputsIn := bitsOf (get f "ref"), validityStart := optNat (get f "start"),
     ttl := optNat (get f "ttl"), slot := natOf (get f "slot"), size := natOf (get f "size"), maxSize := natOf (get f "max"),
@@ -63,6 +138,7 @@ def mkView (f : List (String × String)) (vs : List (String × String)) : View :
     txNetwork := optNat (get f "txnet"), plutusInWitnesses := b1 (get f "plutus"), redeemersPresent := b1 (get f "red"), maxCollateralInputs := natOf (get f "maxcol"),
     collateralPercentage := natOf (get f "pct"), paidCollateral := optNat (get f "paid"), totalCollateral := optNat (get f "total"),
     auxHashPresent := b1 (get f "auxh"), auxPresent := b1 (get f "aux"), auxHashMatches := b1 (get f "auxm"),
+    scripts := mkScripts f, datums := mkDatums f, langs := mkLangs f, sdh := mkSdh f, value := mkValue val, ex := mkEx ex, wit := mkWit wit,
     external := fun r => get vs (ruleName r) == "ok" }
 
 def splitBars (toks : List String) : List (List String) :=
@@ -71,13 +147,13 @@ def splitBars (toks : List String) : List (List String) :=
 def step (_ : Unit) : List String → Unit × String
   | "rl" :: era :: rest =>
     match era? era, splitBars rest with
-    | some e, [_, "V" :: vtoks, "F" :: ftoks] =>
+    | some e, [_, "V" :: vtoks, "F" :: ftoks, val, ex, wit] =>
       let vs := vtoks.map kv
-      let v := mkView (ftoks.map kv) vs
+      let v := mkView (ftoks.map kv) vs val ex wit
       let res := match validate e v with
         | none => "ok"
         | some r => "err " ++ get vs (ruleName r)
-      let bits := (order e).filter (stated e) |>.map (fun r => " " ++ ruleName r ++ "=" ++ (if verdict e v r then "1" else "0"))
+      let bits := (order e).filter (stated e v) |>.map (fun r => " " ++ ruleName r ++ "=" ++ (if verdict e v r then "1" else "0"))
       ((), res ++ " |" ++ String.join bits)
     | _, _ => ((), "bad-op")
   | _ => ((), "bad-op")
